@@ -381,3 +381,87 @@ fn exp_public_api() {
     assert!(n >= 1 && n <= 2);
     core::mem::forget(w);
 }
+
+#[cfg(kani)]
+#[kani::proof]
+#[kani::stub(csv_core::Reader::new, crate::csvstub::stub_reader_new)]
+#[kani::stub(csv_core::Reader::build_dfa, crate::csvstub::stub_build_dfa)]
+#[kani::stub(alloc::fmt::format, crate::c06::stub_format)]
+fn exp_csv_concrete() {
+    let bytes: [u8; 10] = *b"b,1,2,3,u\n";
+    match Lexicon::verif_parse_csv(&bytes, "lex.csv") {
+        Ok(v) => {
+            assert!(v.len() == 1);
+            assert!(v[0].param.left_id == 1 && v[0].param.right_id == 2 && v[0].param.word_cost == 3);
+            assert!(v[0].surface.len() == 1);
+            assert!(v[0].feature.len() == 1);
+            core::mem::forget(v);
+        }
+        Err(_) => assert!(false),
+    }
+}
+
+#[cfg(kani)]
+#[kani::proof]
+#[kani::stub(csv_core::Reader::new, crate::csvstub::stub_reader_new)]
+#[kani::stub(csv_core::Reader::build_dfa, crate::csvstub::stub_build_dfa)]
+#[kani::stub(alloc::fmt::format, crate::c06::stub_format)]
+fn exp_user_lexicon() {
+    let s = crate::world::Spec { sys: crate::world::L_A_AB, user: None, cats: crate::world::CATS_MIX, unk_mult: &[1, 1, 1], nr: 3, nl: 3 };
+    let d = crate::world::dict_of(&s);
+    let csv: [u8; 10] = *b"\x02,1,2,3,u\n";
+    let d = match d.reset_user_lexicon_from_reader(Some(&csv[..])) {
+        Ok(d) => d,
+        Err(_) => { assert!(false); return; }
+    };
+    let ul = d.verif_user_lexicon().unwrap();
+    assert!(ul.verif_num_words() == 1);
+    let p = ul.word_param(WordIdx { lex_type: LexType::User, word_id: 0 });
+    assert!(p.left_id == 1 && p.right_id == 2 && p.word_cost == 3);
+    core::mem::forget(d);
+}
+
+#[cfg(kani)]
+#[kani::proof]
+fn exp_decode_params() {
+    // Vec<WordParam> of 2 elements, fixint little endian
+    let bytes: [u8; 20] = [2, 0, 0, 0, 0, 0, 0, 0, 1, 0, 1, 0, 10, 0, 1, 0, 0, 0, 249, 255];
+    let mut r = ByteReader::new(&bytes, 20);
+    let v: Result<Vec<WordParam>, _> = bincode::decode_from_std_read(&mut r, vibrato::common::bincode_config());
+    match v {
+        Ok(v) => {
+            assert!(v.len() == 2);
+            assert!(v[1].word_cost == -7);
+            core::mem::forget(v);
+        }
+        Err(_) => assert!(false),
+    }
+}
+
+#[cfg(kani)]
+#[kani::proof]
+fn exp_decode_lexicon() {
+    let mut r = ByteReader::new(&gen::IMG_MATRIX[21..], gen::IMG_MATRIX.len() - 21);
+    let v: Result<Lexicon, _> = bincode::decode_from_std_read(&mut r, vibrato::common::bincode_config());
+    match v {
+        Ok(v) => {
+            assert!(v.verif_num_words() == 2);
+            core::mem::forget(v);
+        }
+        Err(_) => assert!(false),
+    }
+}
+
+#[cfg(kani)]
+#[kani::proof]
+fn exp_decode_lexicon_slice() {
+    let mut r: &[u8] = &gen::IMG_MATRIX[21..];
+    let v: Result<Lexicon, _> = bincode::decode_from_std_read(&mut r, vibrato::common::bincode_config());
+    match v {
+        Ok(v) => {
+            assert!(v.verif_num_words() == 2);
+            core::mem::forget(v);
+        }
+        Err(_) => assert!(false),
+    }
+}
